@@ -237,6 +237,11 @@ func BodyAttrs(d *m.Design, meth *m.Method) []string {
 			mapped[mp.Attr] = true
 		}
 	}
+	for _, c := range meth.Creds {
+		if c.Kind == "username" || c.Kind == "password" {
+			mapped[c.Attr] = true // Basic credentials: Authorization header
+		}
+	}
 	var out []string
 	for _, f := range d.ObjectFields(meth.Payload) {
 		if !mapped[f.Name] && f.Name != h.MapParams {
